@@ -23,7 +23,8 @@ type Case struct {
 	Rows     [][]script.Val `json:"rows,omitempty"`
 	Declared []uint32       `json:"declared"`
 	Params   []Param        `json:"params,omitempty"`
-	PShape   string         `json:"pshape"` // none | one | each
+	Others   [][]Param      `json:"others,omitempty"` // further portals bound (text format) between this Bind and its Execute
+	PShape   string         `json:"pshape"`           // none | one | each
 	RFmts    []int16        `json:"rfmts,omitempty"`
 	Limit    int            `json:"limit"`
 }
@@ -77,10 +78,32 @@ func (c Case) history() (play.History, []string) {
 		{K: "P", Name: "s", Query: q},
 		{K: "D", Kind: 'S', Name: "s"},
 		{K: "B", Portal: "p", Name: "s", PFmts: pfmts, Params: params, RFmts: c.RFmts},
-		{K: "D", Kind: 'P', Portal: "p"},
-		{K: "E", Portal: "p"},
-		{K: "S"},
 	}
+	// other portals on the same statement, bound after "p" and before "p" is executed: each
+	// Execute must still deliver the parameters of its own Bind
+	for i, ps := range c.Others {
+		var vals []*[]byte
+		var fm []int16
+		for _, p := range ps {
+			fm = append(fm, p.Fmt)
+			switch {
+			case p.Null:
+				vals = append(vals, nil)
+			case p.Typed != nil:
+				b := pgwire.Encode(p.Typed.T, p.Fmt, p.Typed.Canon())
+				vals = append(vals, &b)
+			default:
+				b := append([]byte{}, p.Raw...)
+				vals = append(vals, &b)
+			}
+		}
+		h.Msgs = append(h.Msgs, script.CMsg{K: "B", Portal: fmt.Sprintf("o%d", i), Name: "s", PFmts: fm, Params: vals, RFmts: c.RFmts})
+	}
+	h.Msgs = append(h.Msgs, script.CMsg{K: "D", Kind: 'P', Portal: "p"}, script.CMsg{K: "E", Portal: "p"})
+	for i := range c.Others {
+		h.Msgs = append(h.Msgs, script.CMsg{K: "E", Portal: fmt.Sprintf("o%d", i)})
+	}
+	h.Msgs = append(h.Msgs, script.CMsg{K: "S"})
 	return h, scanAs
 }
 
@@ -108,6 +131,7 @@ func Run(c Case) core.Result {
 	lab(c.PShape == "one" && len(c.Params) >= 2, "one-code-for-all(n>=2)")
 	lab(len(c.Params) == 0, "no-parameters")
 	lab(len(c.Params) > 100, ">100-parameters")
+	lab(len(c.Others) > 0, "several-portals-bound-before-execute")
 	res.Labels = append(res.Labels, "pshape="+c.PShape)
 	mixed := false
 	for i := range c.RFmts {
@@ -132,9 +156,15 @@ func Run(c Case) core.Result {
 		if msg.K != "E" {
 			return ""
 		}
+		if msg.Portal != "p" {
+			return ""
+		}
 		for _, ev := range env.Trace() {
 			if ev.K != "stmt" {
 				continue
+			}
+			if len(ev.Params) != len(c.Params) {
+				continue // an execution of another portal
 			}
 			for j, po := range ev.Params {
 				if j >= len(scanAs) || scanAs[j] == "" {
